@@ -13,6 +13,9 @@ VERIF = os.path.dirname(HERE)
 sys.path.insert(0, HERE)
 import extract  # noqa: E402
 
+import threading
+
+EXTRACT_LOCK = threading.Lock()   # extract.py keeps per-unit rule state in module globals
 RLIMIT = 100
 VERUS_TIMEOUT = 900
 
@@ -176,7 +179,8 @@ def run_unit(unit, repo='/repo', outdir=None, fidelity=True, canary=True, log=pr
            'notes': [], 'wall_s': 0.0, 'solver_s': 0.0}
     t0 = time.time()
     try:
-        meta = extract.extract_unit(spec, repo, gen, os.path.join(outdir, unit + '.meta.json'))
+        with EXTRACT_LOCK:
+            meta = extract.extract_unit(spec, repo, gen, os.path.join(outdir, unit + '.meta.json'))
     except (extract.LostAnchor, extract.Unsupported, extract.LexError) as e:
         res['notes'].append('extract: %s: %s' % (type(e).__name__, e))
         res['reason'] = 'lost anchor / unsupported construct'
@@ -263,7 +267,8 @@ def run_unit(unit, repo='/repo', outdir=None, fidelity=True, canary=True, log=pr
 def run_canary(unit, repo, outdir, meta):
     spec = os.path.join(VERIF, 'specs', unit + '.toml')
     gen = os.path.join(outdir, unit + '_canary.rs')
-    m2 = extract.extract_unit(spec, repo, gen, None, canary='*')
+    with EXTRACT_LOCK:
+        m2 = extract.extract_unit(spec, repo, gen, None, canary='*')
     r = run_verus(gen)
     if r['json'] is None:
         return {'canaries': 0, 'failed_as_expected': 0, 'vacuous': ['canary run did not execute: ' + r['stderr'][-300:]],
@@ -290,6 +295,8 @@ def run_canary(unit, repo, outdir, meta):
 
 FIDELITY = {
     'V1': {'replay_cmd': ['fidelity-v1', '3'], 'bin_args': ['3']},
+    'V5': {'replay_cmd': ['fidelity-v5'], 'bin_args': []},
+    'V6': {'replay_cmd': ['fidelity-v6'], 'bin_args': []},
 }
 
 
